@@ -51,14 +51,14 @@ type Choices struct {
 	AcceptSpell int // index into AcceptSpellings ("mixed" = last)
 	RejectSpell int
 	DeferSpell  int
-	Comments    int // placement of comment / ;PM lines, see commentMenu
-	MOTD        int // 0 none, 1 two text lines, 2 a "*** MTD Stats" style line, 3 empty lines
-	FW          int // 0 ";FW: CALL", 1 with aux|hash items, 2 no ;FW line
-	SID         int // index into SIDs
-	EarlyFQ     bool // CMS style: FQ right after own last block instead of turning over
-	DupMID      bool // propose the first message twice in one block (Radio-Only gateway style)
-	LowerHex    bool // block checksum in lower-case hex
-	PropCM      bool // message type CM instead of EM in proposals
+	Comments    int    // placement of comment / ;PM lines, see commentMenu
+	MOTD        int    // 0 none, 1 two text lines, 2 a "*** MTD Stats" style line, 3 empty lines
+	FW          int    // 0 ";FW: CALL", 1 with aux|hash items, 2 no ;FW line
+	SID         int    // index into SIDs
+	EarlyFQ     bool   // CMS style: FQ right after own last block instead of turning over
+	DupMID      bool   // propose the first message twice in one block (Radio-Only gateway style)
+	LowerHex    bool   // block checksum in lower-case hex
+	PropCM      bool   // message type CM instead of EM in proposals
 	Challenge   string // if master: send ;PQ: <challenge>
 	HoldTurns   int    // answer FF on the first n own turns although messages are queued (they "arrive" later)
 }
@@ -84,28 +84,28 @@ type Peer struct {
 	Master   bool
 	MyCall   string
 	Other    string
-	Outbox   []Msg          // what the peer offers (in this order; it sorts as the protocol asks)
-	Truth    map[string]Msg // ground truth about the other side's queue (by MID), for validation
+	Outbox   []Msg                 // what the peer offers (in this order; it sorts as the protocol asks)
+	Truth    map[string]Msg        // ground truth about the other side's queue (by MID), for validation
 	Answer   func(mid string) byte // '+', '-', '=' for an inbound proposal
 	C        Choices
 	Password string // expected secure-login password of the other side (when Challenge is set)
 
 	// results
-	Complaints []Complaint
-	Received   []Transfer        // transfers received and fully validated
-	Proposed   [][]string        // the other side's proposal blocks (MIDs)
-	AnswersGot map[string]byte   // normalised answers to the peer's proposals
-	SentOK     []string          // own MIDs transferred and implicitly confirmed by the next turn
-	SentUnconf []string          // own MIDs transferred but never confirmed
-	Lines      []string          // every line received
-	Fatal      string            // why the peer stopped early, if it did
-	Done       bool              // session reached FQ in an orderly way
+	Complaints     []Complaint
+	Received       []Transfer      // transfers received and fully validated
+	Proposed       [][]string      // the other side's proposal blocks (MIDs)
+	AnswersGot     map[string]byte // normalised answers to the peer's proposals
+	SentOK         []string        // own MIDs transferred and implicitly confirmed by the next turn
+	SentUnconf     []string        // own MIDs transferred but never confirmed
+	Lines          []string        // every line received
+	Fatal          string          // why the peer stopped early, if it did
+	Done           bool            // session reached FQ in an orderly way
 	HandshakeLines []string
-	PRSeen     string
-	FWSeen     string
-	HeldMIDs   map[string]bool // proposals the peer answered H (accepted, will be held): it expects the transfer
-	lastProp   map[string]prop
-	turns      int
+	PRSeen         string
+	FWSeen         string
+	HeldMIDs       map[string]bool // proposals the peer answered H (accepted, will be held): it expects the transfer
+	lastProp       map[string]prop
+	turns          int
 
 	rd *bufio.Reader
 	c  net.Conn
@@ -333,9 +333,9 @@ func (p *Peer) readTheirHandshake(theyAreMaster bool) {
 }
 
 type outItem struct {
-	m     Msg
-	comp  []byte
-	prec  int
+	m    Msg
+	comp []byte
+	prec int
 }
 
 func (p *Peer) sortedOutbox() []outItem {
